@@ -861,7 +861,8 @@ class Builder:
                     k = chain_start(m, a, a + mm.start())
                     edits.append(Edit(k, k, [Seg("({ let vx_r = ", "repo", fn=qual)]))
                     edits.append(Edit(a + mm.start(), a + mm.end(), [Seg("; let vx_f = ", "repo", fn=qual)]))
-                    edits.append(Edit(cp, cp + 1, [Seg("; vx_r.vx_%s_find(vx_f) })" % mm.group(1), "repo", fn=qual)], order=5))
+                    tail = "; vx_r.vx_iter_find(vx_f) })" if mm.group(1) == "iter" else "; vx_into_iter_find(vx_r, vx_f) })"
+                    edits.append(Edit(cp, cp + 1, [Seg(tail, "repo", fn=qual)], order=5))
                     self.count("R19")
             if rule[0] == "R18":
                 # `E.then(|| BODY)` -> `(if E { Some(BODY) } else { None })`  (the definition of bool::then)
